@@ -61,11 +61,19 @@ func CreateTypesTable(i interface{}) TypesTable {
 }
 
 func FieldsFromStruct(t reflect.Type) TypesTable {
+	return fieldsFromStruct(t, map[reflect.Type]bool{})
+}
+
+// fieldsFromStruct skips embedded types it is already inside of: a struct may
+// embed a pointer to itself (type T struct{ *T }).
+func fieldsFromStruct(t reflect.Type, inside map[reflect.Type]bool) TypesTable {
 	types := make(TypesTable)
 	t = dereference(t)
-	if t == nil {
+	if t == nil || inside[t] {
 		return types
 	}
+	inside[t] = true
+	defer delete(inside, t)
 
 	switch t.Kind() {
 	case reflect.Struct:
@@ -73,7 +81,7 @@ func FieldsFromStruct(t reflect.Type) TypesTable {
 			f := t.Field(i)
 
 			if f.Anonymous {
-				for name, typ := range FieldsFromStruct(f.Type) {
+				for name, typ := range fieldsFromStruct(f.Type, inside) {
 					if _, ok := types[name]; ok {
 						types[name] = Tag{Ambiguous: true}
 					} else {
